@@ -91,7 +91,7 @@ func c17CheckDeployTiming(res *vfResult, p c01Plan, w *vfWorld, cr vfCmdResult, 
 func c17DeployGen(t *rapid.T) c01Plan { return c01GenMode(t, true) }
 
 func TestVF_C17_Deploy(t *testing.T) {
-	vfCheck(t, vfProp[c01Plan]{id: "C17", gen: c17DeployGen, run: func(t *testing.T, p c01Plan) vfResult {
+	vfCheck(t, vfProp[c01Plan]{id: "C17", stallIsViolation: true, gen: c17DeployGen, run: func(t *testing.T, p c01Plan) vfResult {
 		r := c01RunMode(t, p, "C17")
 		// C17's non-trivial rule: returned strictly before its bound, or hit the bound exactly
 		r.NonTrivial = r.Violation == "" && (vfHasLabel(r, "returned-before-timeout") || vfHasLabel(r, "outcome:failed"))
